@@ -729,9 +729,14 @@ func checkProcess(st *Step, r *Result) []Finding {
 	} else {
 		// exit 0 with no result anywhere and an ERROR-level diagnostic: the
 		// command failed without signalling it
-		if len(r.Stdout) == 0 && len(r.Created) == 0 && bytes.Contains(r.Stderr, []byte(`"level":"ERROR"`)) {
-			fs = append(fs, Finding{Signature: "C09/contract/failure-with-exit-0/" + cmd,
-				Detail: fmt.Sprintf("`crd %s` logged an error (%s), produced no result, and exited 0", strings.Join(st.Argv, " "), first(r.Stderr, 200))})
+		if bytes.Contains(r.Stderr, []byte(`"level":"ERROR"`)) {
+			if len(r.Stdout) == 0 && len(r.Created) == 0 {
+				fs = append(fs, Finding{Signature: "C09/contract/failure-with-exit-0/" + cmd,
+					Detail: fmt.Sprintf("`crd %s` logged an error (%s), produced no result, and exited 0", strings.Join(st.Argv, " "), first(r.Stderr, 200))})
+			} else {
+				fs = append(fs, Finding{Signature: "C09/contract/error-reported-but-exit-0/" + cmd,
+					Detail: fmt.Sprintf("`crd %s` reported an error on stderr (%s) but exited 0 and printed a result: a failure that is not signalled", strings.Join(st.Argv, " "), first(r.Stderr, 200))})
+			}
 		}
 	}
 	return fs
@@ -886,6 +891,6 @@ func (p *C09) Assumptions() []string {
 		"write errors on stdout/-o and mid-stream read errors are not injected (no given property constrains them)",
 		"crd write play / crd midi port are not exercised",
 		"--track between 70001 and 2e9-1 and gen attr -d above 1500 are not generated (legitimately heavy work, not a hang)",
-		"an exit-0 run that produced no result and logged at ERROR level is judged a failed command",
+		"an exit-0 run that logged at ERROR level is judged a failure that was not signalled (crd logs at ERROR level only when a command fails)",
 	}
 }
